@@ -129,6 +129,14 @@ pub fn worker_handle(req: &Value) -> Value {
                             s.geometry.as_ref().map(|g| vec![n4(g.x), n4(g.y), n4(g.z), n4(g.height), n4(g.width), n4(g.azimuth), n4(g.tilt)]).unwrap_or_default(),
                             s.vertices.as_ref().map(|v| v.iter().map(|p| json!([n4(p.x), n4(p.y), n4(p.z)])).collect::<Vec<_>>()).unwrap_or_default()])).collect::<Vec<_>>(),
                         "tbs": d.thermal_bridges.iter().map(|t| json!([t.name, t.length.map_or(-1, n4), n4(t.psi), n4(t.frsi)])).collect::<Vec<_>>(),
+                        "tbx": d.thermal_bridges.iter().map(|t| json!([t.name, t.tbtype,
+                            t.geometry.as_ref().map(|g| vec![n4(g.anglemin), n4(g.anglemax)]).unwrap_or_default(),
+                            t.geometry.as_ref().map(|g| g.partition.clone()).unwrap_or_default(),
+                            if t.catalog.is_some() { 1 } else { 0 },
+                            t.catalog.as_ref().map(|c| c.classes.clone()).unwrap_or_default(),
+                            t.catalog.as_ref().map(|c| c.pcts.iter().map(|x| n4(*x)).collect::<Vec<_>>()).unwrap_or_default(),
+                            t.catalog.as_ref().map(|c| c.firstelems.iter().map(|x| n4(*x)).collect::<Vec<_>>()).unwrap_or_default(),
+                            t.catalog.as_ref().and_then(|c| c.secondelems.as_ref()).map(|v| v.iter().map(|x| n4(*x)).collect::<Vec<_>>()).unwrap_or_default()])).collect::<Vec<_>>(),
                         "floors": floors_of(&bdl),
                         "absorptance": d.db.wallcons.values().filter(|c| !c.material.is_empty()).map(|c| json!([c.name, n4(c.absorptance)])).collect::<Vec<_>>(),
                         "groups": json!({
